@@ -348,12 +348,14 @@ func strMinLenEdge(pred, blk *ssa.BasicBlock, e ssa.Value, depth int) int64 {
 }
 
 func rulePConstIndex(p *Program, r *Reporter) {
-	for _, fname := range []string{"parseJSONLiteral", "parseQuotedIdentifier", "parseStringLiteral"} {
-		fn := p.Func(p.Parser, "", fname)
+	lh := literalHelpers(p)
+	for _, kind := range []string{"json", "quoted", "string"} {
+		fn := lh[kind]
 		if fn == nil {
-			r.Unknown(token.NoPos, "parser."+fname, "literal decoder not found")
+			r.Unknown(token.NoPos, "parser "+kind+" literal decoder", "literal decoder not found")
 			continue
 		}
+		fname := fn.Name()
 		n := 0
 		for _, b := range fn.Blocks {
 			for _, in := range b.Instrs {
@@ -412,7 +414,7 @@ func rulePConstIndex(p *Program, r *Reporter) {
 			}
 		}
 		if n == 0 {
-			r.Unknown(fn.Pos(), "parser."+fname+" indices", "no constant index found")
+			r.Trivial(fn.Pos(), "parser."+fname+" indices", "no constant index into the text in this decoder")
 		}
 	}
 }
